@@ -53,31 +53,32 @@ func (h *H[T]) C11(rc *runCtx) *Violation {
 		}
 	}
 	env := drawPoolEnv(rc)
-	var g int
-	switch prog.Draw(4) {
-	case 0:
-		g = 2
-	case 1:
-		g = 3
-	case 2:
-		g = 2 + prog.Draw(7)
-	default:
-		g = 2 + prog.Draw(rc.b.MaxG-1)
-	}
-	if g > rc.b.MaxG {
-		g = rc.b.MaxG
-	}
-	m := 1 + prog.Draw(rc.b.MaxM)
-	if g > 16 && m > 4 {
-		m = 4
-	}
+	// Tasks, cycles and use operations are drawn as nested units, each
+	// preceded by the draw that decides whether it exists (0 = stop), so that a
+	// truncated or span-deleted tape is still a well-formed, smaller program.
+	contG := []int{2, 3, 8, 32}[prog.Draw(4)]
+	contM := []int{2, 4, 8}[prog.Draw(3)]
 	shareMode := prog.Draw(3) // 0 one shared pointer, 1 per-task copies by value, 2 mixed per cycle
-	progs := make([][]cycle, g)
+	var progs [][]cycle
 	estSteps := 0
-	for t := range progs {
-		progs[t] = make([]cycle, m)
-		for c := range progs[t] {
-			cy := &progs[t][c]
+	for t := 0; t < rc.b.MaxG; t++ {
+		prog.Begin()
+		if t >= 2 && !prog.More(contG) {
+			prog.End()
+			break
+		}
+		var cycles []cycle
+		maxM := rc.b.MaxM
+		if t >= 16 && maxM > 4 {
+			maxM = 4
+		}
+		for c := 0; c < maxM; c++ {
+			prog.Begin()
+			if c >= 1 && !prog.More(contM) {
+				prog.End()
+				break
+			}
+			var cy cycle
 			switch shareMode {
 			case 0:
 				cy.handle = 0
@@ -86,8 +87,14 @@ func (h *H[T]) C11(rc *runCtx) *Violation {
 			default:
 				cy.handle = prog.Draw(3)
 			}
-			for n := prog.Draw(4); n > 0; n-- {
+			for n := 0; n < 3; n++ {
+				prog.Begin()
+				if !prog.More(2) {
+					prog.End()
+					break
+				}
 				cy.uses = append(cy.uses, drawUse(prog))
+				prog.End()
 			}
 			cy.inner = prog.Draw(3) == 2
 			cy.hold = prog.Draw(4)
@@ -100,16 +107,30 @@ func (h *H[T]) C11(rc *runCtx) *Violation {
 			cy.putArg = uint64(prog.Draw(1 << 16))
 			cy.second = prog.Draw(6) == 5
 			estSteps += 8 + len(cy.uses) + cy.hold
+			cycles = append(cycles, cy)
+			prog.End()
+		}
+		progs = append(progs, cycles)
+		prog.End()
+	}
+	g := len(progs)
+	m := 0
+	for _, cs := range progs {
+		if len(cs) > m {
+			m = len(cs)
 		}
 	}
 	sim.Strategy = 1 + sim.Sched.Draw(simrt.NumStrategies-1) // never the sequential reference
 	sim.StickyP = []int{2, 4, 8, 16}[sim.Sched.Draw(4)]
 	drawInner(sim)
+	// Inner pre-emption is spent where it matters: inside the pool operations
+	// and the use operations, not inside the harness's own check loops.
+	sim.InnerSites = 1<<sGet | 1<<sPut | 1<<sUse
 	rc.tally("strategy", simrt.StrategyNames[sim.Strategy])
 	rc.tally("tasks", spA("%d", g))
 	rc.tally("inner_gap", spA("%d", sim.InnerG))
 	rc.tally("share_mode", []string{"shared-pointer", "by-value-copies", "mixed"}[shareMode])
-	rc.cfg = spA("alloc=%+v G=%d M=%d share=%d strategy=%s stickyP=%d innerG=%d %s", a, g, m, shareMode,
+	rc.cfg = spA("alloc=%+v G=%d maxM=%d share=%d strategy=%s stickyP=%d innerG=%d %s", a, g, m, shareMode,
 		simrt.StrategyNames[sim.Strategy], sim.StickyP, sim.InnerG, env)
 	sim.Tracef("config: T=%s %s", h.name, rc.cfg)
 	if shareMode != 0 {
